@@ -2,8 +2,8 @@
 # usage: tools/try_seed_wt.sh <seed_dir>... — like try_seed.sh but in a scratch worktree (does not touch /repo's working tree).
 # NOTE: overwrites evidence/Cxx.json with a run against the MUTATED tree; re-run ./check Cxx afterwards.
 export OMP_NUM_THREADS=1 OPENBLAS_NUM_THREADS=1 MKL_NUM_THREADS=1 PYTHONHASHSEED=0 MPLBACKEND=Agg FDAPY_VERIF=1
-WT=/tmp/seedwt_$$
-git -C /repo worktree add --detach $WT HEAD >/dev/null 2>&1 || exit 2
+WT=${WT:-/tmp/seedwt_main}
+git -C /repo worktree remove --force $WT >/dev/null 2>&1; git -C /repo worktree add --detach $WT HEAD >/dev/null 2>&1 || exit 2
 cd /verif
 for d in "$@"; do
   id=$(basename $d); p=$(python3 -c "import json;print(json.load(open('$d/meta.json'))['property'])" 2>/dev/null || echo ${id%%_*})
